@@ -95,7 +95,8 @@ def getConn (s : State) (a : Nat) (clock : Nat) : State × Option Nat :=
       let s := setA s a (cs, cur')
       match cs[cur']? with
       | some id =>
-        if isAlive s id then (s, some id)
+        -- being handed out is a use: the connection is stamped (transport.go getConn, cursor path)
+        if isAlive s id then (updPc s id fun p => { p with lastUse := s.now }, some id)
         else match dial s a clock with
           | some (s, nid) => (setA s a (cs.set cur' nid, cur'), some nid)
           | none => (s, none)
